@@ -28,7 +28,8 @@ class SetV(Val):
 # ---------------------------------------------------------------------------------- element types
 class ObjK(SpecType):
   """opaque framework object of some kind (update block, signal, component ...): only identity matters."""
-  def __init__(s,kind='obj'): s.kind=kind; s.tag=kind
+  def __init__(s,kind='obj',maybe_none=None):
+    s.kind=kind; s.tag=kind; s.maybe_none=(kind=='obj') if maybe_none is None else maybe_none      # a declared kind is a real object, not None
   def make(s,name,st,fresh):
     c=z3.Const(f"{name}!{st.nextid[0]}" if fresh else name,Obj); st.nextid[0]+=1
     if not fresh: st.syms.append((name,c))
@@ -90,6 +91,7 @@ def wf(t,typ):
   """well-typedness of an element term (type invariant of the collection)."""
   if isinstance(typ,PairOf): return z3.And(Obj.is_pair(t),wf(Obj.fst(t),typ.a),wf(Obj.snd(t),typ.b))
   if isinstance(typ,IntT): return Obj.is_ibox(t)
+  if isinstance(typ,ObjK) and not typ.maybe_none: return t!=Obj.none
   return z3.BoolVal(True)
 
 def setval(v,st):
